@@ -480,6 +480,10 @@ func generate(c *ctx, g *gen, thorough bool) {
 		}
 	}
 
+	// --- 2c. minimal / exact-fit family (round 3): every guard of the decoder that compares a count, an
+	// offset or a length with the bytes remaining in the block sees its tightest valid input ---
+	minimalFamily(c, g, thorough)
+
 	// --- 3. random trees and values ---
 	type tv struct {
 		t *T
